@@ -85,6 +85,7 @@ checks = {
    design="5/C17"),
 }
 not_applicable = {
+ "C18": "data-race freedom quantifies over goroutine schedules; deciding it with this technique needs a schedule-aware encoder (memory-access events with thread identity, lock sets, fork/join edges and an order-variable query per conflicting pair) on top of the SSA executor. The engine interprets goroutines sequentially (errgroup closures in spawn or reverse order, go statements not scheduled); the thread layer was not built, and the Go race detector is a different technique (DESIGN.md section 7)",
 }
 pending = ["C18"]
 m = {
@@ -100,7 +101,7 @@ m = {
  "engines": [{"name": "gosym", "path": "/verif/gosym", "serves_properties": sorted(checks), "kind_free_text": "go/ssa -> SMT symbolic executor (own code) with z3 4.8.12 back end; path exploration by re-execution; if-conversion of pure regions; native replay via go test -overlay"}],
  "checks": [],
  "not_applicable": [],
- "notes": "Properties listed under not_applicable with reason 'check not built yet' are work in progress in this session, not judged inapplicable.",
+ "notes": "C20 is claimed for its configuration half only and C08 for sequential request sequences only (their schedule clauses need the thread layer that was not built; said in each check's level_note and evidence assumptions). C16's space is mostly configuration shape enumerated by the engine's case splits.",
 }
 checks["C15"] = dict(
    text="Non-interference by symbolic execution of the real validation (config.ValidateFix / CheckUserInput / ValidateFilterRefs / wstrings.Safe) followed by every real SQL text builder (config.DDL, wpg.Table.DDL/Migrate, dig.Integration.Delete, dig.Filter.Accept reference lookup incl. nested components, dig.Integration.notify, shovel.NewTask application_name): one symbolic byte is appended to each of 20 configuration string positions on the file path and on the dashboard path; whenever the configuration is accepted and a recorded SQL text is a function of the byte, z3 proves the byte is an identifier character. Chain-derived bytes must not influence any SQL text.",
